@@ -74,7 +74,7 @@ def export_case():
                 'rocks': draw(st.lists(st.integers(0, 2), min_size=1, max_size=12)),
                 'boundary': draw(st.lists(st.tuples(st.integers(0, 400), st.sampled_from(['zero', 'huge', 'large'])), max_size=3)),
                 'atmos_volume': draw(st.sampled_from([1e25, 1e25, 1e20])),
-                'gens': gens, 'via_file': draw(st.booleans())}
+                'gens': gens, 'via_file': draw(st.booleans()), 'grid_order': draw(st.sampled_from(['geometry', 'geometry', 'reversed', 'rotated']))}
     return s()
 
 
@@ -331,6 +331,15 @@ def run_export(case, R):
                 R.fail('export:rock-cell-wrong-type', 'cell %d (block %r) listed under %r, block has %r' % (c, n, t['name'], d.grid.block[n].rocktype.name)); break
     if case['boundary']: R.label('export:boundary-blocks')
     # sources
+    go = case.get('grid_order', 'geometry')
+    if go != 'geometry' and d.grid.num_blocks > natm + 1:
+        # the model's block list in another order than the geometry's (an ELEME section written by another tool, blocks
+        # added by hand): cell indices are those of the geometry
+        R.label('export:grid-blocks-' + go)
+        names_now = [b.name for b in d.grid.blocklist]
+        tail = names_now[natm:]
+        tail = tail[::-1] if go == 'reversed' else tail[len(tail) // 2:] + tail[:len(tail) // 2]
+        with R.lib('grid.reorder'): d.grid.reorder(names_now[:natm] + tail)
     unds = [b.name for b in und]
     gl = []
     for i, gm in enumerate(case['gens']):
